@@ -15,6 +15,10 @@ type Zone struct {
 	// OneHop: the upstream does not chase CNAMEs: an answer for a name that
 	// owns a CNAME holds that one record and nothing else.
 	OneHop bool `json:"one_hop,omitempty"`
+	// Bulk > 0: every answer section starts with a TXT record of about that
+	// many octets owned by an unrelated name (so that the names that follow
+	// sit - and are pointed at - beyond the first kilobyte of the message).
+	Bulk int `json:"bulk,omitempty"`
 }
 
 // Fault kinds.
